@@ -254,6 +254,25 @@ extern "C" int LLVMFuzzerInitialize(int *, char ***) {
   build_world(getenv("VF_GEN_CORPUS") != nullptr || (g_group_name != "pgp" && g_group_name != "ctor"));
   if (const char *d = getenv("VF_GEN_CORPUS")) { // write the seed corpus of this group (valid artefacts made by the library itself) and leave
     size_t n = 0; for (auto &kv : W->seeds) { int gi = group_index_of(kv.first); if (gi < 0) continue; for (auto &s : kv.second) { char name[512]; snprintf(name, sizeof name, "%s/seed-%s-%zu", d, TNAME[kv.first], n++); FILE *o = fopen(name, "wb"); if (!o) continue; fputc(gi, o); fwrite(s.data(), 1, s.size(), o); fclose(o); } }
+    // "count and length fields set to ... huge": every textual seed of the importer / constructor groups once more with one numeric
+    // line replaced by an oversized integer (2047, 2048, 2049, 4100 bits: around and beyond the 2048-entry fixed-base tables), and once with
+    // all of the first lines oversized.  Coverage-guided mutation lengthens a 22-digit number to 345 digits only by luck.
+    if (g_group_name == "ctor" || g_group_name == "imp") {
+      auto bigtxt = [](unsigned bits, unsigned salt) { mpz_class v = 1; v <<= (bits - 1); v += mpz_class(0x9E3779B9u + 7919u * salt) * mpz_class(salt + 3); v |= 1; return v.get_str(62); };
+      size_t m = 0;
+      for (auto &kv : W->seeds) { int gi = group_index_of(kv.first); if (gi < 0) continue;
+        for (auto &s0 : kv.second) {
+          std::string pre, body = s0; if (!body.empty() && (unsigned char)body[0] < 0x20 && body[0] != '\n') { pre = body.substr(0, 1); body = body.substr(1); }
+          std::vector<std::string> ln = split_lines_local(body); if (ln.size() < 2) continue;
+          bool numeric = true; for (size_t i = 0; i < ln.size() && i < 4; i++) for (char ch : ln[i]) if (!isalnum((unsigned char)ch) && ch != '-') numeric = false;
+          if (!numeric) continue;
+          auto emit = [&](const std::vector<std::string> &v) { std::string t = pre; for (auto &x : v) t += x + "\n"; char name[512]; snprintf(name, sizeof name, "%s/huge-%s-%zu", d, TNAME[kv.first], m++); FILE *o = fopen(name, "wb"); if (!o) return; fputc(gi, o); fwrite(t.data(), 1, t.size(), o); fclose(o); };
+          static const unsigned BITS[] = {2048, 4100, 2047, 2049};
+          for (size_t L = 0; L < ln.size() && L < 5; L++) for (size_t b = 0; b < (L == 1 ? 4u : 2u); b++) { std::vector<std::string> v = ln; v[L] = bigtxt(BITS[b], (unsigned)(L * 7 + b)); emit(v); }
+          { std::vector<std::string> v = ln; for (size_t L = 0; L < v.size() && L < 4; L++) v[L] = bigtxt(2048 + (unsigned)L, (unsigned)L); emit(v); }
+        } }
+      n += m;
+    }
     for (size_t gi = 0; gi < g_group.size(); gi++) { char name[512]; snprintf(name, sizeof name, "%s/empty-%s", d, TNAME[g_group[gi]]); FILE *o = fopen(name, "wb"); if (o) { fputc((int)gi, o); fclose(o); } }
     fprintf(stdout, "wrote %zu seeds\n", n); fflush(stdout); _exit(0); }
   atexit(dump_stats);
